@@ -654,6 +654,8 @@ func (r *Runner) resolveBinaryExpression(ctx context.Context, expr *BinaryExpres
 		return r.resolveAmpersandAmpersandBinaryExpression(v1, v2)
 	case SK_BarBar: // ||
 		return r.resolveBarBarBinaryExpression(v1, v2)
+	case SK_QuestionQuestion: // ??
+		return r.resolveQuestionQuestionBinaryExpression(v1, v2)
 	case SK_Comma:
 		return r.resolveCommaBinaryExpression(v1, v2)
 	}
@@ -842,6 +844,14 @@ func (r *Runner) resolveAmpersandAmpersandBinaryExpression(v1, v2 interface{}) (
 
 func (r *Runner) resolveBarBarBinaryExpression(v1, v2 interface{}) (interface{}, error) {
 	if !r.toBool(v1) {
+		return v2, nil
+	} else {
+		return v1, nil
+	}
+}
+
+func (r *Runner) resolveQuestionQuestionBinaryExpression(v1, v2 interface{}) (interface{}, error) {
+	if IsNull(v1) {
 		return v2, nil
 	} else {
 		return v1, nil
